@@ -10,6 +10,7 @@
 from __future__ import absolute_import, division
 
 import math
+import re
 
 from .RetractionState import RetractionState
 from .AtCommandAction import ENABLE_EXCLUSION, DISABLE_EXCLUSION
@@ -23,6 +24,10 @@ INCH_TO_MM_FACTOR = 25.4
 MM_PER_ARC_SEGMENT = 1
 
 TWO_PI = 2 * math.pi
+
+# Leading zeros of a Gcode number (e.g. G01, M0204), which aren't significant
+LEADING_ZEROS_REGEX = re.compile("^([A-Z])0+(?=[0-9])")
+
 
 
 class GcodeHandlers(object):
@@ -222,7 +227,8 @@ class GcodeHandlers(object):
             If the command should be processed normally, returns None, otherwise returns one or
             more Gcode commands to execute instead or IGNORE_GCODE_CMD to prevent processing.
         """
-        gcode = gcode.upper()
+        # OctoPrint passes the code as it is spelled in the command: G01 is G1
+        gcode = LEADING_ZEROS_REGEX.sub("\\1", gcode.upper())
 
         self.state.numCommands += 1
         method = getattr(self, "_handle_" + gcode, self.state.processExtendedGcode)
